@@ -25,3 +25,16 @@ Proof.
   destruct (held _); [reflexivity | discriminate].
 Qed.
 Print Assumptions C14_parse_leaves_no_working_storage.
+
+(* a call of yaep_parse that ends in its error handler (a failing memory request, an invalid token) leaves the settings
+   of the object as they were: the one setting the library itself assigns during a parse (one_parse_p, cleared while all
+   parses are built for the cost flag) is saved before setjmp and written back by the handler *)
+Theorem C14_failed_parse_keeps_settings : forall (s locals s' : gsettings),
+  (forall f, In f settings_saved_before_setjmp -> locals f = s f) ->
+  (forall f, ~ In f settings_changed_during_parse -> s' f = s f) ->
+  forall f, after_handler settings_restored_by_handler locals s' f = s f.
+Proof.
+  intros s locals s'. apply (failed_parse_keeps_settings settings_changed_during_parse settings_saved_before_setjmp).
+  exact (proj1 parse_settings_kept).
+Qed.
+Print Assumptions C14_failed_parse_keeps_settings.
